@@ -14,12 +14,12 @@ ANCHORS = ["src/pylife/materiallaws/rambgood.py", "src/pylife/materiallaws/hooke
 SHARDS = {"quick": 4, "thorough": 16}
 WATCHDOG = {"quick": 900, "thorough": 3000}
 SOAK = {"thorough": ['tests/materiallaws', 'tests/strength/fkm_nonlinear']}      # contract soak (pv/contracts_more.py) under the repository's own tests
-REQUIRED_CLASSES = {t: ["ro:n<0.08", "ro:n>0.3", "ro:n>0.5", "ro:zero_in_array", "ro:strain>0.02", "ro:elastic", "ro:negative", "ro:scalar", "ro:array", "ro:fixed_scalar_probes",
+REQUIRED_CLASSES = {t: ["ro:n<0.08", "ro:n>0.3", "ro:n>0.5", "ro:zero_in_array", "ro:strain>0.02", "ro:elastic", "ro:negative", "ro:scalar", "ro:array", "ro:fixed_scalar_probes", "ro:2d_arrays_C_and_F_order",
                         "hooke:nu<0", "hooke:nu>0.45", "hooke:1d", "hooke:plane_stress", "hooke:plane_strain", "hooke:3d", "true:negative"]
                     for t in ("quick", "thorough")}
 REQUIRED_MONITORS = ["ro:strain==formula", "ro:stress(strain(s))==s", "ro:strain(stress(e))==e", "ro:odd", "ro:strictly_increasing",
                      "ro:compliance==d_strain/d_stress", "ro:modulus==1/compliance", "ro:masing==2f(x/2)",
-                     "ro:delta_stress(delta_strain(x))==x", "ro:lower_hysteresis_meets_curve", "ro:scalar_probes==formula", "hooke:stress(strain(s))==s",
+                     "ro:delta_stress(delta_strain(x))==x", "ro:lower_hysteresis_meets_curve", "ro:scalar_probes==formula", "ro:2d_arrays_elementwise", "hooke:stress(strain(s))==s",
                      "hooke:plane_strain==3d(e33=0)", "hooke:plane_stress==3d(s33=0)", "hooke:G_and_K", "true_stress_strain"]
 RULE = ("seeded Ramberg-Osgood sets (E 50e3..250e3, K 200..4000, n 0.04..0.45) with arguments generated through the strain "
         "(|eps| <= 0.1: physically meaningful), scalar and array; Hooke sets (E, -1 < nu < 0.5) with random stress/strain states; "
@@ -129,6 +129,23 @@ def _ro(case, ctx, rng):
         lh = float(np.asarray(ro.lower_hysteresis(smax, smax)))
         ctx.check("ro:lower_hysteresis_meets_curve", abs(lh - float(np.asarray(ro.strain(smax)))) <= 1e-15 + 1e-13 * abs(lh), observed=lh,
                   expected=float(np.asarray(ro.strain(smax))))
+    # two-dimensional arrays in either memory layout (time x node tables, frames turned into arrays, transposed views):
+    # every entry must come back at its own position
+    ctx.tag("ro:2d_arrays_C_and_F_order")
+    S2 = (K * rng.uniform(0.05, 0.9, (3, 4)) * rng.choice([-1.0, 1.0], (3, 4)))
+    ok, bad = True, None
+    for lay, A in (("C", S2), ("F", np.asfortranarray(S2)), ("transposed", S2.T), ("strided", np.repeat(S2, 2, axis=1)[:, ::2])):
+        e2 = np.asarray(ro.strain(A), dtype=float)
+        ref2 = np.vectorize(lambda v: N.ro_strain(float(v), E, K, n))(np.asarray(A))
+        try:
+            b2 = np.asarray(ro.stress(e2, rtol=tol, tol=tol), dtype=float)
+            d2 = np.asarray(ro.delta_stress(np.asarray(ro.delta_strain(2 * A))), dtype=float)
+        except RuntimeError:
+            continue
+        if not (e2.shape == np.shape(A) and _close(e2, ref2, 1e-12, 1e-300) and b2.shape == np.shape(A)
+                and _close(b2, np.asarray(A), 4e-9 / max(n, 0.04), 4e-10) and _close(d2, 2 * np.asarray(A), 1e-4, 1e-5)):
+            ok, bad = False, {"layout": lay, "stress": np.asarray(A), "stress(strain(.))": b2}
+    ctx.check("ro:2d_arrays_elementwise", ok, observed=bad, tags=mech, detail={"E": E, "K": K, "n": n})
     # the same scalar arguments for every parameter set of the run (python float and numpy scalar): a result that depends on
     # anything but (E, K, n, argument) - state shared between instances or calls - shows against the closed form
     ctx.tag("ro:fixed_scalar_probes")
